@@ -216,7 +216,10 @@ Qed.
 Theorem block_indent_exact : forall s start_pos end_pos,
   wf_utf8 s = true ->
   block_indent_remover s start_pos end_pos =
-  Ok (let ofs := match find_prev_lb s start_pos true with Some p => start_pos - p - 1 | None => 0 end in
+  Ok (let ofs := match find_prev_lb s start_pos true with
+                   | Some p => start_pos - p - 1
+                   | None => if all_blank_before s start_pos then start_pos else 0
+                   end in
       let first := match find_next_lb s start_pos false with Some p => S p | None => length s end in
       let len := leading_blanks (skipn first s) - ofs in
       dedent_lines (S (length s)) s end_pos first ofs len).
@@ -224,13 +227,19 @@ Proof.
   intros s a e Hs. unfold block_indent_remover. cbv zeta.
   assert (match find_prev_lb s a true with
           | Some pos => x <- csub a pos ;; csub x 1
-          | None => Ok 0
-          end = Ok (match find_prev_lb s a true with Some p => a - p - 1 | None => 0 end)) as Hofs.
+          | None => Ok (if all_blank_before s a then a else 0)
+          end = Ok (match find_prev_lb s a true with
+                    | Some p => a - p - 1
+                    | None => if all_blank_before s a then a else 0
+                    end)) as Hofs.
   { destruct (find_prev_lb s a true) as [p|] eqn:F; [|reflexivity].
     apply find_prev_lb_some in F. destruct F as (F1 & _).
     rewrite (csub_le a p) by lia. cbn [bind]. rewrite csub_le by lia. reflexivity. }
   rewrite Hofs. cbn [bind]. clear Hofs.
-  remember (match find_prev_lb s a true with Some p => a - p - 1 | None => 0 end) as ofs eqn:Eofs.
+  remember (match find_prev_lb s a true with
+            | Some p => a - p - 1
+            | None => if all_blank_before s a then a else 0
+            end) as ofs eqn:Eofs.
   destruct (find_next_lb s a false) as [p|] eqn:F.
   - rewrite Nat.add_1_r.
     pose proof (find_next_lb_some _ _ _ _ F) as (F1 & F2 & F3 & F4).
@@ -262,6 +271,55 @@ Proof.
   - split; [exact H1|]. split; [exact H3|].
     intros j Hj1 Hj2. apply (passed_not_NL s true). apply H5; assumption.
   - apply (find_prev_lb_pause_blank s a p Hs Hb Hl F).
+Qed.
+
+(** The first line of the file: when only blanks stand in front of the seam there is no line break
+    to find, and the offset is the seam's position, i.e. again the number of those blanks (the
+    column of the opening tag).  Before the repair of the block formatter the offset was 0 there. *)
+Lemma blank_check_lb s i b : nth_error s i = Some b -> is_blank b = true -> check_lb s i = CSkip.
+Proof.
+  intros N B. unfold check_lb.
+  assert (is_boundary s i = true) as ->.
+  { unfold is_boundary. destruct i as [|i]; [reflexivity|]. rewrite N.
+    unfold is_blank in B. apply orb_true_iff in B.
+    destruct B as [B|B]; apply beq_eq in B; subst b; reflexivity. }
+  cbn [negb]. rewrite N. unfold is_blank in B. rewrite B. reflexivity.
+Qed.
+
+Theorem indent_offset_first_line : forall s start_pos pause,
+  all_blank_before s start_pos = true -> find_prev_lb s start_pos pause = None.
+Proof.
+  intros s a pause H. pose proof (all_blank_before_true s a H) as Hbl. clear H.
+  induction a as [|c IH]; [reflexivity|].
+  cbn [find_prev_lb]. destruct (Nat.leb_spec (length s) c) as [L|L]; [reflexivity|].
+  destruct (nth_error s c) as [b|] eqn:Nc; [|apply nth_error_None in Nc; lia].
+  rewrite (blank_check_lb s c b Nc); [|apply (Hbl c b); [lia | exact Nc]].
+  apply IH. intros i d Hi Hn. apply (Hbl i d); [lia | exact Hn].
+Qed.
+
+Theorem block_indent_exact_first_line : forall s start_pos end_pos,
+  wf_utf8 s = true -> all_blank_before s start_pos = true ->
+  block_indent_remover s start_pos end_pos =
+  Ok (let ofs := start_pos in
+      let first := match find_next_lb s start_pos false with Some p => S p | None => length s end in
+      let len := leading_blanks (skipn first s) - ofs in
+      dedent_lines (S (length s)) s end_pos first ofs len).
+Proof.
+  intros s a e Hs H. rewrite (block_indent_exact s a e Hs).
+  rewrite (indent_offset_first_line s a true H), H. reflexivity.
+Qed.
+
+(** Otherwise (no line break in front of the seam on its line, and something else than blanks
+    before it: code precedes the tag on its line) the offset is 0, as before. *)
+Theorem indent_offset_after_code : forall s start_pos end_pos,
+  wf_utf8 s = true -> find_prev_lb s start_pos true = None -> all_blank_before s start_pos = false ->
+  block_indent_remover s start_pos end_pos =
+  Ok (let ofs := 0 in
+      let first := match find_next_lb s start_pos false with Some p => S p | None => length s end in
+      let len := leading_blanks (skipn first s) - ofs in
+      dedent_lines (S (length s)) s end_pos first ofs len).
+Proof.
+  intros s a e Hs F H. rewrite (block_indent_exact s a e Hs). rewrite F, H. reflexivity.
 Qed.
 
 (* ------------------------------------------------------------------------- *)
@@ -296,4 +354,7 @@ Qed.
 (* ------------------------------------------------------------------------- *)
 Print Assumptions block_indent_exact.
 Print Assumptions indent_offset_spec.
+Print Assumptions indent_offset_first_line.
+Print Assumptions block_indent_exact_first_line.
+Print Assumptions indent_offset_after_code.
 Print Assumptions dedent_lines_leading.
